@@ -332,6 +332,10 @@ fn run_c05(ctx: &mut Ctx) -> Verdict {
 }
 
 fn run_c18(ctx: &mut Ctx) -> Verdict {
+    // one run in 64 uses the real transports (R-sim) instead of the in-memory one
+    if ctx.tape.weighted(&[63, 1]) == 1 {
+        return super::c18_rsim::run(ctx);
+    }
     run(ctx, true)
 }
 
@@ -340,6 +344,13 @@ const COMPONENTS: &[(&str, &str)] = &[
     ("netconf transports (tls.rs, ssh.rs, junos_local.rs)", "stub: in-memory Transport with send back-pressure"),
     ("tokio runtime", "not used: own seeded executor polls the real futures"),
     ("NETCONF server", "model: FakeNetconf (strict XML parser, one tagged reply per request)"),
+];
+
+const COMPONENTS_C18: &[(&str, &str)] = &[
+    ("netconf session.rs / message/** / capabilities.rs / builders / readers", "real"),
+    ("netconf transports (tls.rs, ssh.rs, junos_local.rs)", "63 runs in 64: stub (in-memory Transport with send back-pressure); 1 run in 64: real, against the scripted R-sim peer (tokio-rustls acceptor / russh server / fakecli) on a paused tokio clock"),
+    ("executor", "own seeded executor polling the real futures (S-sim runs); tokio current_thread with paused clock (R-sim runs)"),
+    ("NETCONF server", "model: FakeNetconf (strict XML parser, one tagged reply per request) / scripted peer"),
 ];
 
 pub static C05: PropSpec = PropSpec {
@@ -359,14 +370,14 @@ pub static C05: PropSpec = PropSpec {
 
 pub static C18: PropSpec = PropSpec {
     id: "C18",
-    simulator: "S-sim",
+    simulator: "S-sim + R-sim",
     level: "exploration",
     runs: |t| if t == Tier::Thorough { 30_000_000 } else { 300_000 },
     enumerated: |_| 0,
     run: run_c18,
-    rule: "the C05 space plus the scheduler action 'drop reply future j' (1-2 drops per run) enabled at every step for every future living in its own task - i.e. at each of its suspension points - and 'drop unpolled'; afterwards one more request is issued. Non-trivial = at least one future was dropped; distinct = distinct event-log hash",
-    components: COMPONENTS,
-    assumptions: &["the server answers every request exactly once"],
+    rule: "the C05 space plus the scheduler action 'drop reply future j' (1-2 drops per run) enabled at every step for every future living in its own task - i.e. at each of its suspension points - and 'drop unpolled'; afterwards one more request is issued. One run in 64 uses the real TLS / SSH / local transport against the scripted peer instead (R-sim): 2-4 pipelined requests, replies in a seeded order and cut into 1-3 chunks, the task awaiting one or two of the replies aborted between two chunks (inside the transport read if it is the reader); survivors must get their own replies and one more request must work. Non-trivial = at least one future was dropped; distinct = distinct event-log hash",
+    components: COMPONENTS_C18,
+    assumptions: &["the server answers every request exactly once", "on the real transports a drop can only be placed between two deliveries of the peer (1 ms of virtual time apart), not between two polls of the client"],
     watchdog_s: 30,
     stuck_is_verdict: false,
     serial: false,
